@@ -38,12 +38,20 @@
 				  size_t ignore = 0);
 
   static char parse_esc_num (char const *str, int len, int ignore, int base);
+
+  // Report a lexical error.  The message is stored in the scanner's extra
+  // data and a token that no grammar rule accepts is returned, which makes
+  // the parser clean up its stack and fail.  Throwing from here would leak
+  // everything the parser has on its stack.
+  static yytokentype lexer_fail (yyscan_t yyscanner, std::string message,
+				 fmtlit *f = nullptr);
 %}
 
 %option 8bit bison-bridge warn yylineno
 %option noyywrap nounput batch noinput
 
 %option reentrant
+%option extra-type="lexer_extra *"
 
 ALNUM [_a-zA-Z0-9]*
 ID  [_a-zA-Z]{ALNUM}
@@ -205,7 +213,7 @@ OCT [0-7]
 }
 
 <STRING><<EOF>> {
-  throw std::runtime_error ("string literal not terminated");
+  return lexer_fail (yyscanner, "string literal not terminated", yylval->f);
 }
 
 <STRING_EMBEDDED>[\(\[\{] {
@@ -218,8 +226,9 @@ OCT [0-7]
   yylval->f->str += *yyget_text (yyscanner);
   if (! yylval->f->in_string)
     if (yylval->f->level-- == 0)
-      throw std::runtime_error
-	("too many closing parentheses in embedded expression");
+      return lexer_fail
+	(yyscanner, "too many closing parentheses in embedded expression",
+	 yylval->f);
 }
 
 <STRING_EMBEDDED>"\\\"" {
@@ -241,7 +250,14 @@ OCT [0-7]
   yylval->f->in_string = true;
   if (yylval->f->level == 0)
     {
-      yylval->f->t.push_child (parse_subquery (yylval->f->yank_str ()));
+      try
+	{
+	  yylval->f->t.push_child (parse_subquery (yylval->f->yank_str ()));
+	}
+      catch (std::exception const &e)
+	{
+	  return lexer_fail (yyscanner, e.what (), yylval->f);
+	}
       BEGIN STRING;
     }
   else
@@ -256,8 +272,9 @@ OCT [0-7]
 }
 
 <STRING_EMBEDDED><<EOF>> {
-  throw std::runtime_error
-    ("too few closing parentheses in embedded expression");
+  return lexer_fail
+    (yyscanner, "too few closing parentheses in embedded expression",
+     yylval->f);
 }
 
 "-"?{INT} {
@@ -279,8 +296,9 @@ OCT [0-7]
     sprintf (buf, "%c", *yytext);
   else
     sprintf (buf, "0x%02x", (unsigned int) (unsigned char) *yytext);
-  throw std::runtime_error
-    (std::string ("Invalid character in input stream: `") + buf + "'");
+  return lexer_fail
+    (yyscanner,
+     std::string ("Invalid character in input stream: `") + buf + "'");
 }
 
 <<EOF>> return TOK_EOF;
@@ -294,6 +312,19 @@ pass_string (yyscan_t sc, YYSTYPE *val, yytokentype toktype, size_t ignore)
   assert (len >= 0 && size_t (len) >= ignore);
   val->s = strlit { yyget_text (sc) + ignore, size_t (len - ignore) };
   return toktype;
+}
+
+yytokentype
+lexer_fail (yyscan_t sc, std::string message, fmtlit *f)
+{
+  delete f;
+  lexer_extra *extra = yyget_extra (sc);
+  if (! extra->failed)
+    {
+      extra->failed = true;
+      extra->message = std::move (message);
+    }
+  return TOK_ERROR;
 }
 
 char
